@@ -17,7 +17,7 @@ def run(P, rep, tier):
         'covering -?[0-9]+ (shared with C11).')
     rep.undecided = 'nothing structural; value equality of the records with/without the extra options is implied, not executed'
     rep.trusted_base += ['dict semantics', 'regex language engine']
-    R, res = rr.analyse(P)
+    R, res = rr.analyse(P, tier)
     rep.analysed(*R.funcs)
     r1 = rep.rule('C12-R1', 'every parsed pair is stored; the key is compared with no constant', reference=9)
     r2 = rep.rule('C12-R2', 'the options mapping is read only by constant lookups of the known options', reference=9)
